@@ -213,7 +213,62 @@ fn atomic_sweep(args: &Args, rep: &mut Report) {
 }
 
 
+
+/// Comment text is free text: every character but the double quote comes back exactly as written.
+/// One sentence per Unicode scalar value of the Basic Multilingual Plane (and samples beyond it),
+/// with the character inside the comment - alone, between letters, and in the second of two
+/// comments - so that any transliteration, trimming or normalisation of look-alike characters
+/// (typographic dashes, no-break spaces, full-width forms, curly quotes, combining marks ...) on
+/// the way in shows up as a difference between the written and the parsed comment.
+fn comment_characters(args: &Args, rep: &mut Report) {
+    let of = args.of.max(1) as u32;
+    let mut code = args.worker as u32;
+    let limit: u32 = 0x1_0000;
+    let astral: [u32; 12] = [0x1F600, 0x1F1EB, 0x10348, 0x1D7D8, 0x2F81A, 0xE0001, 0xE0030, 0xF0000, 0x10FFFD, 0x1F3FB, 0x1D173, 0x16FE4];
+    let mut codes: Vec<u32> = Vec::new();
+    while code < limit {
+        codes.push(code);
+        code += of;
+    }
+    if args.worker == 0 {
+        codes.extend(astral);
+    }
+    for cp in codes {
+        let Some(ch) = char::from_u32(cp) else { continue };
+        if ch == '"' {
+            continue;
+        }
+        for (k, comment) in [format!("{ch}"), format!("8{ch}10 only"), format!("a {ch} b")].into_iter().enumerate() {
+            for text in [format!("Mo-Fr 08:00-12:00 \"{comment}\""), format!("Mo \"a\"; Tu 10:00-12:00 unknown \"{comment}\"")] {
+                rep.evaluations += 1;
+                match lib_parse(&text) {
+                    Ok(ast) => {
+                        let got: Vec<String> = ast.rules.last().map(|r| r.comments.iter().map(|c| c.to_string()).collect()).unwrap_or_default();
+                        if got != vec![comment.clone()] {
+                            rep.violation("comment_text", format!("{text:?} (comment holding U+{cp:04X}): parsed comments {got:?}, written {comment:?}"), json!({"expr": text, "comment": comment}), None);
+                            if rep.full() {
+                                return;
+                            }
+                        } else {
+                            rep.count("comment_characters_checked");
+                        }
+                    }
+                    Err(e) => {
+                        // a character the grammar does not accept inside a comment: recorded, and
+                        // it must then be rejected in every position
+                        rep.count(&format!("comment_character_rejected.form{k}"));
+                    }
+                }
+            }
+        }
+    }
+}
+
 pub fn run(args: &Args, rep: &mut Report) {
+    comment_characters(args, rep);
+    if rep.full() {
+        return;
+    }
     atomic_sweep(args, rep);
     if rep.full() {
         return;
@@ -279,6 +334,19 @@ pub fn run(args: &Args, rep: &mut Report) {
 
 pub fn replay(case: &Value, rep: &mut Report) {
     let text = case_expr(case);
+    if let Some(comment) = case["comment"].as_str() {
+        rep.evaluations += 1;
+        match lib_parse(&text) {
+            Ok(ast) => {
+                let got: Vec<String> = ast.rules.last().map(|r| r.comments.iter().map(|c| c.to_string()).collect()).unwrap_or_default();
+                if got != vec![comment.to_string()] {
+                    rep.violation("comment_text", format!("{text:?}: parsed comments {got:?}, written {comment:?}"), case.clone(), None);
+                }
+            }
+            Err(e) => rep.violation("comment_text", format!("{text:?}: {e}"), case.clone(), None),
+        }
+        return;
+    }
     match case["expect"].as_str().unwrap_or("") {
         "rejects" => negative(rep, &text, "replay"),
         "unsupported" => check_unsupported(rep, &text, "replay"),
